@@ -148,6 +148,16 @@ class Esp:
                         r = op_local(rv["use"])
                         if r is not None:
                             stack.append(r)
+                        else:
+                            pl = rv["use"].get("copy") or rv["use"].get("move")
+                            if pl and len(pl["proj"]) == 1 and isinstance(pl["proj"][0], dict) and "field" in pl["proj"][0] \
+                                    and pl["proj"][0].get("of") == "tuple":
+                                stack.append(pl["local"])      # part of a tuple: track the tuple
+                    elif "agg" in rv and "tuple" in rv["agg"]:
+                        for o in rv["ops"]:
+                            r = op_local(o)
+                            if r is not None:
+                                stack.append(r)
                     elif "discr" in rv and not rv["discr"]["proj"]:
                         stack.append(rv["discr"]["local"])
                     elif "un" in rv and rv["un"] == "Not":
@@ -201,8 +211,28 @@ class Esp:
                 r = op_local(op)
                 if r is not None and r in env:
                     val = env[r]
+                elif r is None:
+                    # field i of a tuple with known parts
+                    pl = op.get("copy") or op.get("move")
+                    if pl and len(pl["proj"]) == 1 and isinstance(pl["proj"][0], dict) and "field" in pl["proj"][0]:
+                        tv = env.get(pl["local"])
+                        if tv and tv[0] == "tuple":
+                            i = pl["proj"][0]["field"]
+                            if isinstance(i, int) and i < len(tv[1]) and tv[1][i] is not UNKNOWN:
+                                val = tv[1][i]
         elif "agg" in rv and "adt" in rv["agg"]:
             val = ("variant", rv["agg"]["adt"], rv["agg"]["variant"])
+        elif "agg" in rv and "tuple" in rv["agg"]:
+            # a tuple built from known parts (e.g. a helper returning (value, removed?, count)): remember the parts
+            parts = []
+            for o in rv["ops"]:
+                if "const" in o:
+                    parts.append(("int", o["int"]) if "int" in o else UNKNOWN)
+                else:
+                    r = op_local(o)
+                    parts.append(env.get(r) if r is not None else UNKNOWN)
+            if any(x is not UNKNOWN for x in parts):
+                val = ("tuple", tuple(parts))
         elif "discr" in rv and not rv["discr"]["proj"]:
             src = env.get(rv["discr"]["local"])
             if src and src[0] == "variant":
@@ -426,8 +456,16 @@ class Esp:
                 self._queued.add((pt, key))
                 dq.append((pt, key))
             return
-        # join: keep agreeing bindings
-        joined = {k: v for k, v in old.items() if env.get(k) == v}
+        # join: keep agreeing bindings (tuples part by part)
+        joined = {}
+        for k, v in old.items():
+            w = env.get(k)
+            if w == v:
+                joined[k] = v
+            elif v and w and v[0] == "tuple" and w[0] == "tuple" and len(v[1]) == len(w[1]):
+                parts = tuple(a if a == b else UNKNOWN for a, b in zip(v[1], w[1]))
+                if any(x is not UNKNOWN for x in parts):
+                    joined[k] = ("tuple", parts)
         if joined != old:
             cur[key] = joined
             if (pt, key) not in self._queued:
